@@ -411,9 +411,6 @@ impl Oplog {
         let len = usize::try_from(combined >> 2)
             .expect("Attempted converting to a 32 bit usize on below 32 bit system");
 
-        // NB: In the Javascript version IIUC zero length is caught only with a mismatch
-        // of checksums, which is silently interpreted to only mean "no value". That doesn't sound good:
-        // better to throw an error on mismatch and let the caller at least log the problem.
         if len == 0 || data_buff.len() < len {
             return Ok(None);
         }
@@ -424,9 +421,10 @@ impl Oplog {
         let to_hash = &buffer[CRC_SIZE..LEADER_SIZE + len];
         let calculated_checksum = crc32fast::hash(to_hash);
         if calculated_checksum != stored_checksum {
-            return Err(HypercoreError::InvalidChecksum {
-                context: format!("Calculated signature [{calculated_checksum}] does not match oplog signature [{stored_checksum}]"),
-            });
+            // A header slot or entry whose write was interrupted: as in the Javascript
+            // version this means "no value" (the other header slot is used, a half-written
+            // entry is ignored). Failing here would make the store unopenable after a crash.
+            return Ok(None);
         };
         Ok(Some(ValidateLeaderOutcome {
             header_bit,
